@@ -16,7 +16,9 @@ from vf.runner import ToolError
 LEVEL = 'fault_enumeration'
 RULE = ('Fault origins {early listener, ordinary listener, built-in reaction '
         '(login disconnect), built-in reaction (malformed status JSON), '
-        'decoder (play frame ending inside a field), exit callback} x handler '
+        'decoder (play frame ending inside a field), exit callback, built-in '
+        'reaction failing on a send fault (flush of queued replies inside '
+        'disconnect() after the server has gone)} x handler '
         'chains of length 0-2 (quick) / 0-3 (thorough), each handler = (type '
         'filter in {the original type, replacement types only, an unrelated '
         'type, none = catch all}, registered early or not, action in '
@@ -31,7 +33,7 @@ ASSUMPTIONS = ['the reference interpreter below encodes the documented '
 
 V = 757
 ORIGINS = ('early_listener', 'listener', 'reaction_login', 'reaction_status',
-           'decoder', 'exit_callback')
+           'decoder', 'exit_callback', 'reaction_flush_fault')
 FILTERS = ('orig', 'repl', 'none', 'all')
 ACTIONS = ('return', 'raise', 'reconnect')
 FINALS = ('None', 'False', 'returns', 'raises')
@@ -61,7 +63,8 @@ def orig_type(origin):
     return {'early_listener': Orig, 'listener': Orig, 'exit_callback': Orig,
             'reaction_login': LoginDisconnect,
             'reaction_status': json.JSONDecodeError,
-            'decoder': struct.error}[origin]
+            'decoder': struct.error,
+            'reaction_flush_fault': BrokenPipeError}[origin]
 
 
 def order(chain):
@@ -131,6 +134,13 @@ def body(W, origin, chain, final):
         if origin == 'exit_callback':
             return {'login': [('success',)],
                     'play_script': [('disconnect', '{"text":"bye"}')]}
+        if origin == 'reaction_flush_fault':
+            # two replies are queued when the disconnect packet is reacted
+            # to; the server is gone by then and the environment answers the
+            # flush inside disconnect() with EPIPE: the reaction itself fails
+            return {'login': [('success',)],
+                    'play_script': [('keepalive', 1), ('keepalive', 2),
+                                    ('disconnect', '{"text":"bye"}')]}
         return {'login': [('success',)], 'play_script': [('keepalive', 5)]}
     W.serve(status={'json': status_json(protocol=V, name='1.18.1')},
             per_conn=per_conn)
@@ -298,11 +308,17 @@ def chains(maxlen):
             yield c
 
 
+def netkw(origin):
+    if origin == 'reaction_flush_fault':
+        return {'send_after_close': 'raise'}
+    return {}
+
+
 def w_batch(ctx, task):
     origin, final, batch = task
     for chain in batch:
         x = harness.run(lambda W: body(W, origin, chain, final),
-                        horizon=50000)
+                        horizon=50000, **netkw(origin))
         ctx.count()
         if chain or final in ('returns', 'raises'):
             ctx.note_distinct(1)
@@ -343,7 +359,7 @@ def run(ctx):
 def replay(ctx, case):
     chain = tuple(tuple(h) for h in case['chain'])
     x = harness.run(lambda W: body(W, case['origin'], chain, case['final']),
-                    horizon=50000)
+                    horizon=50000, **netkw(case['origin']))
     ctx.count()
     for key, what in judge(case['origin'], chain, case['final'], x):
         ctx.violation('%s final=%s %s' % (case['origin'], case['final'], key),
